@@ -1,7 +1,7 @@
 import corpus
 
-PLAN_QUICK = [("tree", ["tree0", "tree1", "tree2", "tree3"]), ("chain", ["tree3", "tree0", "tree2"]), ("ctx", ["tree0"])]
-PLAN_THOROUGH = [("tree", ["tree0", "tree1", "tree2", "tree3", "treelazy"]), ("chain", ["tree3", "tree0", "tree2", "tree1"]), ("ctx", ["tree0", "tree2"]), ("exc", ["tree3"]), ("conv", ["tree1"])]
+PLAN_QUICK = [('exc', ['treemif']), ('tree', ['treemif']), ("tree", ["tree0", "tree1", "tree2", "tree3"]), ("chain", ["tree3", "tree0", "tree2"]), ("ctx", ["tree0"])]
+PLAN_THOROUGH = [('exc', ['treemif']), ('tree', ['treemif']), ("tree", ["tree0", "tree1", "tree2", "tree3", "treelazy"]), ("chain", ["tree3", "tree0", "tree2", "tree1"]), ("ctx", ["tree0", "tree2"]), ("exc", ["tree3"]), ("conv", ["tree1"])]
 
 
 def units(tier, seed):
